@@ -175,6 +175,17 @@ check('C15', 'translation_validation',
       'translation validation in TLC: plan interpreter + TLA+ definition of the admissible model input',
       'DESIGN.md 2.7, 5/C15')
 
+check('C06', 'translation_validation',
+      'About 100 queries (all join kinds and spellings, subqueries, set operations, CTEs, grouping, HAVING, NULLS '
+      'FIRST/LAST, LIMIT/OFFSET, CASE, DISTINCT) and 14 DML statements are rendered for sqlite with fallback off; the '
+      'rendered text is executed by sqlite3 on seeded small databases and TLC (SemOracle over SQLSem.tla, incl. '
+      'ApplyDml) decides whether the observed rows / table contents are admissible for the ORIGINAL statement; the '
+      'original text is executed too and must be admissible (oracle check).',
+      'Only the sqlite rendering is executed; mysql/postgresql renderings are compared textually (undecided where '
+      'they differ); window functions and DDL are not judged.',
+      'translation validation: rendered text executed on sqlite3, judged by the TLA+ reference semantics in TLC',
+      'DESIGN.md 2.6, 5/C06')
+
 ALL = ['C%02d' % i for i in range(1, 21)]
 
 
